@@ -14,13 +14,14 @@ REQUIRED = ["|grid value - true landscape| <= step/2 at every node and depth", "
             "death vector non-increasing permutation of deaths"]
 RULE = ("diagrams from the C03 generators (1-12 bars, grids with exact coincidences, floats, scales) sampled on grids with "
         "num_steps 2..500, also far from the origin (offset 1e5-1e7 bar lengths) and at absolute scale 1e-9: default grid [min birth, max death], wider grids, grids whose nodes hit / miss the endpoints, exact "
-        "half-step ties; hom_deg 0..2 with decoys. non-trivial = >=2 bars, >=1 endpoint off the grid and >=3 interior nodes; "
+        "half-step ties; hom_deg 0..2 with decoys; one case in 331 has 1500-9000 bars on 500-2500 nodes (floats, integer grids with many births on the first node, all births 0). non-trivial = >=2 bars, >=1 endpoint off the grid and >=3 interior nodes; "
         "distinct = digest of (sorted bars, grid)")
 ASSUMPTIONS = ["true landscape from the definition (k-th largest tent) evaluated at linspace(start, stop, num_steps)",
                "bound step/2 + 1e-9*scale; missing depths count as 0; the string sentinel stored for a grid with no interior "
                "node counts as 'no depths returned'",
                "vectorize is compared with linear interpolation of the exact object's own critical pairs (isolates C08 from "
                "the C03 known finding) and with the definition only when the trace hook reports no repeated-bar shortcut"]
+REQUIRED_NOTES = ["large-cases"]
 TECHNIQUE = "runtime monitoring: postcondition monitor on PersLandscapeApprox.values / vectorize / PersistenceLandscaper / death_vector with the definition as oracle"
 
 EVENTS = []
@@ -69,7 +70,55 @@ def pick_grid(rng, bars):
     return lo - q, hi + q + (2 * q if (cells % 2) else 0), (cells + 2 + (cells % 2) * 2) // 2 + 1, mode
 
 
+def large_case(ctx, k, rng):
+    """thousands of bars on fine grids (num_steps * bars of several million): whatever is done differently at that size must
+    still be within half a step of the definition"""
+    import io, contextlib
+    n = int(rng.integers(1500, 9001))
+    num = int(rng.choice([500, 500, 1000, 2000, 2500]))
+    if rng.random() < 0.5:
+        b = rng.random(n) * 10; d = b + rng.random(n) * float(rng.choice([0.5, 3.0])) + 1e-3; style = "large-float"
+    else:
+        b = rng.integers(0, 200, n).astype(float); d = b + rng.integers(1, 80, n); style = "large-grid"    # many births at the grid start
+    if rng.random() < 0.3:
+        b = np.zeros(n); style += "-h0"                                                                       # Rips H0: every birth 0
+    bars = np.column_stack([b, d])[rng.permutation(n)]
+    mode = str(rng.choice(["default", "wider", "transformer"]))
+    lo, hi = float(bars[:, 0].min()), float(bars[:, 1].max())
+    start, stop = (None, None) if mode != "wider" else (lo - float(rng.random()), hi + float(rng.random()))
+    ctx.begin(k, style + "/" + mode, {"n_bars": n, "num_steps": num, "start": start, "stop": stop, "first_bars": bars[:5]})
+    ctx.note("large-cases")
+    s0, s1 = (lo, hi) if start is None else (start, stop)
+    nodes, step = np.linspace(s0, s1, num, retstep=True)
+    want = OL.lam_all(bars, nodes)
+    tol = tolerance(bars)
+    try:
+        ctx.ran()
+        with contextlib.redirect_stdout(io.StringIO()):
+            if mode == "transformer":
+                vals = depth_rows(Landscaper(hom_deg=0, num_steps=num, flatten=False).fit_transform([bars]))
+            else:
+                vals = depth_rows(PLA(start=start, stop=stop, num_steps=num, dgms=[bars], hom_deg=0).values)
+    except Exception as e:
+        ctx.exception("approximate landscape constructs", e)
+        return
+    K = vals.shape[0]
+    ok_shape = K > 0 and vals.shape[1] == num and K <= n
+    if not ctx.check("values have one row per depth and one column per node", ok_shape, shape=vals.shape, n=n, num=num):
+        return
+    err = np.abs(vals - want[:K])
+    rest = float(want[K:].max()) if K < n else 0.0
+    worst = max(float(err.max()), rest)
+    i, j = np.unravel_index(int(np.argmax(err)), err.shape)
+    ctx.check("|grid value - true landscape| <= step/2 at every node and depth", worst <= step / 2 + tol, worst_error=worst, step=step,
+              depth=int(i) + 1, node=float(nodes[j]), got=float(vals[i, j]), want=float(want[i, j]), missing_depths_max=rest,
+              in_steps=worst / step)
+    ctx.mark_nontrivial(n, num, float(bars.sum()), mode)
+
+
 def run_case(ctx, k, rng):
+    if k % 331 == 5:
+        return large_case(ctx, k, rng)
     bars, style = gen_bars(rng)
     bars, style = far_or_tiny(rng, bars, style)     # also far from the origin / at tiny absolute scale
     hom = int(rng.choice([0, 0, 1, 2]))
